@@ -309,7 +309,9 @@ func (d *dynUpdater) checkBackendPair(pair *backendPair) bool {
 
 	// copy remaining empty slots from oldBack to curBack, so it can be used in a future update
 	for i := len(added); i < len(empty); i++ {
-		curBack.AddEmptyEndpoint().Name = empty[i].Name
+		ep := curBack.AddEmptyEndpoint()
+		ep.Name = empty[i].Name
+		ep.CookieValue = empty[i].CookieValue
 	}
 
 	return updated
